@@ -42,7 +42,7 @@ pub fn run(ctx: &Ctx) -> i32 {
     let _ = super::variant::measured();
     let progs = programs();
     let alphabets: Vec<Vec<Action>> = progs.iter().map(alphabet).collect();
-    let depth = ctx.tier.pick(7, 9);
+    let depth = ctx.tier.pick(7, 10);
     let raw_depth = ctx.tier.pick(4, 5);
     let roots: Vec<St> = (0..progs.len()).map(|i| St { tag: i as u32, hist: vec![], digest: i as u64 }).collect();
     let step = |acc: &mut Acc, s: &St| -> Vec<St> {
